@@ -70,6 +70,9 @@ theorem step_loop (d : Dist) (op : Op) (hop : op.loopOp = true) (hc : Coherent d
       by_cases h1 : d.initialized <;> by_cases hr : d.ready <;> by_cases hs : d.strict <;>
         by_cases h3 : size = 0 <;> by_cases h4 : d.auto <;>
         simp [h1, hr, hs, h3, h4, Res.start, Pos.le, Pos.lt, doJump, Gen.jumpDefaultDelta] <;> omega
+  | setPars =>
+      unfold StepOK Coherent at *
+      simp [step, Res.start, Pos.le]; omega
   | direct size =>
       unfold StepOK Coherent at *
       simp only [step]
